@@ -14,7 +14,7 @@ import json, os, struct, sys
 import vlib
 from props import c08lib as L
 
-COQ_FILES = ["Prep/Codec.v", "Prep/CodecProofs.v", "Prep/CodecObs.v", "Prep/Cache.v", "Prep/CacheProofs.v", "Prep/Props.v"]
+COQ_FILES = ["Prep/Codec.v", "Prep/CodecProofs.v", "Prep/CodecObs.v", "Prep/Cache.v", "Prep/CacheProofs.v", "Prep/CacheObs.v", "Prep/Props.v"]
 PRE = "From PV Require Import Prep.Codec Prep.CodecObs.\nFrom Coq Require Import ZArith NArith List Bool. Import ListNotations. Open Scope Z_scope."
 
 NAMES = [b"", b"a", b"s1", b"stmt_1", b"PGCAT_7", b"S_1", b'a"b', b"it's", b"x" * 63, b"n" * 200, b"\xc3\xa9t\xc3\xa9", b"1", b"0",
@@ -467,6 +467,265 @@ def coq_triples(g):
     return "[" + "; ".join("(%s, %d, [%s])" % (vlib.coq_bytes(q), np, "; ".join(str(t) for t in tys)) for q, np, tys in g) + "]"
 
 
+# ------------------------------------------------------------------------------------------------ layer 2
+PRE2 = "From PV Require Import Prep.Cache Prep.CacheObs.\nFrom Coq Require Import Arith List Bool. Import ListNotations."
+
+# Statement ids (shared with coq/Prep/CacheObs.v kd): 90..94 fail at Parse, 95..97 fail at Execute, 99 = DEALLOCATE ALL.
+def stmt_sql(st):
+    """what a wire harness should send for abstract statement st (and what its mock backend keys verdicts on)"""
+    if 90 <= st <= 94:
+        return "SELEC %d" % st, []                      # syntax error at Parse
+    if 95 <= st <= 97:
+        return "SELECT %d/0" % st, []                   # run-time error at Execute
+    if st == 99:
+        return "DEALLOCATE ALL", []
+    return "SELECT %d" % st, ([23] if st % 2 else [])    # distinct texts; some with a parameter type
+
+
+def name_sql(n):
+    return "" if n == 0 else "s%d" % n
+
+
+def op_coq(o):
+    k = o["op"]
+    if k == "Parse":
+        return "Parse %d %d %d" % (o["c"], o["n"], o["st"])
+    if k in ("Bind", "Describe", "Close"):
+        return "%s %d %d" % (k, o["c"], o["n"])
+    if k == "Execute":
+        return "Execute %d" % o["c"]
+    if k == "Sync":
+        return "Sync %d %d" % (o["c"], o["s"])
+    if k == "Cleanup":
+        return "Cleanup %d" % o["s"]
+    raise ValueError(k)
+
+
+def prog_coq(ops):
+    return "[" + "; ".join(op_coq(o) for o in ops) + "]"
+
+
+def P(c, n, st): return {"op": "Parse", "c": c, "n": n, "st": st}
+def B(c, n): return {"op": "Bind", "c": c, "n": n}
+def D(c, n): return {"op": "Describe", "c": c, "n": n}
+def E(c): return {"op": "Execute", "c": c}
+def C(c, n): return {"op": "Close", "c": c, "n": n}
+def S(c, s): return {"op": "Sync", "c": c, "s": s}
+def CL(s): return {"op": "Cleanup", "s": s}
+
+
+def gen_program(rng, nclients, nservers, k, length, wild):
+    """Multi-client program.  Well-behaved mode mimics a driver: prepare / bind+execute / describe / close, one or a few
+    statements per batch, names reused across clients and shadowed after Close; wild mode: arbitrary ops over small alphabets
+    (including failing statements, Close+Parse in one batch, more statements per batch than the cache holds)."""
+    names = [1, 2, 3] if not wild else [0, 1, 2, 3]
+    stmts = [10, 11, 12, 13, 14, 15] if not wild else [10, 11, 12, 13, 90, 95, 99]
+    tabs = [dict() for _ in range(nclients)]
+    pend = [[] for _ in range(nclients)]            # ops of the open batch, per client
+    out = []
+    for _ in range(length):
+        c = rng.randrange(nclients)
+        if wild:
+            r = rng.random()
+            if r < 0.25:
+                out.append(P(c, rng.choice(names), rng.choice(stmts)))
+            elif r < 0.45:
+                out.append(B(c, rng.choice(names)))
+            elif r < 0.55:
+                out.append(D(c, rng.choice(names)))
+            elif r < 0.7:
+                out.append(E(c))
+            elif r < 0.8:
+                out.append(C(c, rng.choice(names)))
+            elif r < 0.97:
+                out.append(S(c, rng.randrange(nservers)))
+            else:
+                out.append(CL(rng.randrange(nservers)))
+            continue
+        t = tabs[c]
+        budget = k
+        batch = []
+        mentioned = set()
+        for _ in range(rng.choice([1, 1, 2, 3])):
+            free = [n for n in names if n not in mentioned]
+            have = [n for n in t if True]
+            r = rng.random()
+            if r < 0.35 and free and budget > 0:
+                n = rng.choice(free)
+                if n in t and rng.random() < 0.7:
+                    continue                                # PostgreSQL would refuse to redefine: mostly avoid
+                st = rng.choice(stmts)
+                batch.append(P(c, n, st)); t[n] = st; mentioned.add(n); budget -= 1
+                if rng.random() < 0.6:
+                    batch += [B(c, n), E(c)]
+            elif r < 0.75 and have and (budget > 0 or any(n in mentioned for n in have)):
+                n = rng.choice([n for n in have if budget > 0 or n in mentioned])
+                if n not in mentioned:
+                    budget -= 1
+                for _ in range(rng.choice([1, 1, 1, 2, 5])):     # the same statement bound several times (batch insert)
+                    batch += [B(c, n), E(c)]
+                mentioned.add(n)
+                if rng.random() < 0.2:
+                    batch.append(E(c))
+            elif r < 0.85 and have and (budget > 0 or any(n in mentioned for n in have)):
+                n = rng.choice([n for n in have if budget > 0 or n in mentioned])
+                if n not in mentioned:
+                    budget -= 1
+                batch.append(D(c, n)); mentioned.add(n)
+            elif have:
+                n = rng.choice(have)
+                batch.append(C(c, n)); del t[n]; mentioned.add(n)
+        if not batch:
+            continue
+        pend[c] += batch + [S(c, rng.randrange(nservers))]
+        # interleave: emit a random prefix of some clients' pending ops
+        for c2 in rng.sample(range(nclients), nclients):
+            m = rng.randint(0, len(pend[c2]))
+            out += pend[c2][:m]
+            pend[c2] = pend[c2][m:]
+        if rng.random() < 0.03:
+            out.append(CL(rng.randrange(nservers)))
+    for c2 in range(nclients):
+        out += pend[c2]
+    return out
+
+
+def rep_json(r):
+    return r if isinstance(r, str) else [r[0], r[1]]
+
+
+def bmsg_json(m):
+    return m if isinstance(m, str) else [m[0]] + list(m[1:])
+
+
+def predict(programs, tag="c08p"):
+    """programs: list of {"k": cache size, "servers": n, "ops": [...]} -> model prediction per program, JSON-comparable:
+    client_obs (what each client receives per Sync / when it is disconnected), per-backend message log (everything the
+    backend receives, including out-of-band Parse/Close/Sync), final server cache / registering queue / backend statement
+    table, the statement of every PGCAT_<g>, the direct-connection specification's replies, and the theorem's guard."""
+    exprs = ["predict (Kid %d) %d %s" % (p["k"], p["servers"], prog_coq(p["ops"])) for p in programs]
+    vals = L.coq_eval(tag, PRE2, exprs, shard=max(20, len(exprs) // 16 + 1))
+    out = []
+    for p, v in zip(programs, vals):
+        obs, servers, gdef, spec, guard = vlib.parse_coq(v)
+
+        def oj(o):
+            return {"kind": o[0], "client": o[1], "replies": [rep_json(r) for r in o[2]]}
+        out.append({
+            "client_obs": [oj(o) for o in obs],
+            "backends": [{"received": [bmsg_json(m) for m in sl], "cache_mru_first": lru, "registering_queue": q,
+                          "statements": sorted([list(x) for x in bt])} for (sl, lru, q, bt) in servers],
+            "pgcat_names": {("PGCAT_%d" % i): st for i, st in enumerate(gdef)},
+            "direct_connection": [oj(o) for o in spec],
+            "guard": guard})
+    return out
+
+
+# Scenarios whose model prediction differs from a direct connection (confirmed gaps of the refinement theorem), each with the
+# message sequence; "wire": must be confirmed on the wire harness (in-process pgcat + mock backends with a statement table).
+WITNESSES = [
+    ("i-first-parse-fails-second-stays-cached", 8, 1,
+     [P(0, 1, 90), P(0, 2, 10), S(0, 0), P(0, 2, 10), S(0, 0), B(0, 2), E(0), S(0, 0)],
+     "two Parses in one batch, the first fails: one ErrorResponse pops ONE registering entry, PGCAT_1 (skipped by the backend) stays in the server cache; the client's retry of Parse s2 is answered with a synthesised ParseComplete and its Bind fails (26000)"),
+    ("i-other-client-hit", 8, 1,
+     [P(0, 1, 90), P(0, 2, 10), S(0, 0), P(1, 7, 10), B(1, 7), E(1), S(1, 0)],
+     "same as above, the victim is ANOTHER client preparing the same text on that server connection"),
+    ("close-then-parse-same-name", 8, 1,
+     [P(0, 1, 10), S(0, 0), C(0, 1), P(0, 1, 11), S(0, 0), B(0, 1), E(0), S(0, 0)],
+     "Close s1 + Parse s1 in one batch: the map entry is inserted when the Parse is buffered and removed when the Close is processed at Sync; the next Bind s1 gets 'prepared statement does not exist' and the client is disconnected"),
+    ("close-parse-bind-same-batch-poisons-server", 8, 1,
+     [P(0, 1, 10), S(0, 0), C(0, 1), P(0, 1, 11), B(0, 1), E(0), S(0, 0), P(1, 5, 11), B(1, 5), E(1), S(1, 0)],
+     "Close s1, Parse s1, Bind s1, Execute, Sync: client 0's task ends inside the 'S' arm after PGCAT_1 was put in the server cache but before its Parse was sent; client 1 (same text) then gets ParseComplete from the cache and an error on Bind"),
+    ("bind-then-reparse-lands-on-other-server", 8, 2,
+     [P(0, 1, 10), S(0, 0), B(0, 1), E(0), C(0, 1), P(0, 1, 11), S(0, 1)],
+     "Bind s1 is renamed when buffered (old statement) but ensure_prepared_statement_is_on_server looks s1 up at Sync (new statement): on a server connection without the old statement the Bind fails"),
+    ("v-cache-size-1-two-parses-then-bind-first", 1, 1,
+     [P(0, 1, 10), P(0, 2, 11), B(0, 1), E(0), S(0, 0)],
+     "cache size 1: the second Parse evicts the first (Close sent out of band before the Parse itself), Bind s1 re-prepares it out of band, then the client's own Parse of the same name arrives: 42P05, the batch fails"),
+    ("v-more-parses-than-cache-leaks-statement", 2, 1,
+     [P(0, 1, 10), P(0, 2, 11), P(0, 3, 12), S(0, 0), B(0, 1), E(0), S(0, 0), B(0, 1), E(0), S(0, 0)],
+     "k+1 Parses in one batch with cache size k: PGCAT_0 is evicted (Close sent) before its Parse reaches the backend, so the backend keeps a statement the cache does not know; the next Bind s1 re-Parses it (42P05, swallowed, s1 dropped from the client map) and the Bind after that disconnects the client"),
+    ("iv-client-deallocate-all", 4, 1,
+     [P(0, 1, 10), S(0, 0), P(1, 1, 99), B(1, 1), E(1), S(1, 0), B(0, 1), E(0), S(0, 0)],
+     "client 1 runs DEALLOCATE ALL (CommandComplete tag is not PREPARE, no cleanup): the backend forgets every PGCAT statement, the server cache does not; client 0's Bind fails"),
+    ("failed-parse-stays-in-client-map-close-skipped", 2, 2,
+     [P(1, 1, 10), S(1, 0), P(1, 2, 11), S(1, 0), P(0, 1, 90), S(0, 1), B(0, 1), E(0), S(0, 0), B(1, 1), E(1), S(1, 0), B(1, 1), E(1), S(1, 0)],
+     "a Parse that failed stays in the client map; its Bind re-sends it out of band together with the Close of the evicted PGCAT_0: the error makes the backend skip that Close, PGCAT_0 leaks; client 1's next Bind s1 re-Parses PGCAT_0 (42P05, swallowed, s1 dropped from its map) and the Bind after that disconnects client 1"),
+]
+# scenarios that must AGREE with a direct connection (investigated, found fine)
+FINE = [
+    ("ii-pool-eviction-while-client-holds-arc", 1, 1, [P(0, 1, 10), S(0, 0), P(1, 1, 11), S(1, 0), P(1, 2, 10), B(1, 2), E(1), S(1, 0), B(0, 1), E(0), S(0, 0)]),
+    ("iii-same-statement-two-names", 4, 2, [P(0, 1, 10), P(0, 2, 10), S(0, 0), C(0, 1), S(0, 0), B(0, 2), E(0), S(0, 1)]),
+    ("iv-deallocate-all-at-checkin", 4, 1, [P(0, 1, 10), S(0, 0), CL(0), B(0, 1), E(0), S(0, 0)]),
+    ("v-cache-size-1-parse-bind-one-batch", 1, 1, [P(0, 1, 10), B(0, 1), E(0), S(0, 0), P(0, 2, 11), B(0, 2), E(0), S(0, 0), B(0, 1), E(0), S(0, 0)]),
+    ("two-clients-same-name-different-statements", 4, 2, [P(0, 1, 10), P(1, 1, 11), S(0, 0), S(1, 0), B(0, 1), E(0), S(0, 1), B(1, 1), E(1), S(1, 1)]),
+]
+
+
+def layer2(run, quick):
+    """model-level checks (no implementation involved yet): the refinement theorem sampled on generated programs, the witness
+    scenarios, and the JSON predictions a wire harness will be compared against."""
+    rng = run.rng
+    progs = []
+    for i in range(160 if quick else 3000):
+        k = rng.choice([1, 1, 2, 2, 3, 8])
+        progs.append({"k": k, "servers": rng.choice([1, 2, 3]), "wild": False, "ops": None, "clients": rng.choice([1, 2, 3])})
+    for i in range(80 if quick else 1500):
+        progs.append({"k": rng.choice([1, 2, 8]), "servers": rng.choice([1, 2]), "wild": True, "ops": None, "clients": rng.choice([1, 2, 3])})
+    for p in progs:
+        p["ops"] = gen_program(rng, p["clients"], p["servers"], p["k"], rng.choice([4, 8, 14]) if not p["wild"] else rng.choice([6, 12, 20]), p["wild"])
+    exprs = ["agree (Kid %d) %s" % (p["k"], prog_coq(p["ops"])) for p in progs]
+    vals = [vlib.parse_coq(v) for v in L.coq_eval("c08a", PRE2, exprs, shard=max(20, len(exprs) // 16 + 1))]
+    st = {"programs": len(progs), "guard_true": 0, "guard_true_agree": 0, "guard_false_agree": 0, "guard_false_differ": 0}
+    for p, (g, a) in zip(progs, vals):
+        if g and a:
+            st["guard_true"] += 1; st["guard_true_agree"] += 1
+        elif g:
+            st["guard_true"] += 1
+            run.violation("proof-broken", "model and direct-connection specification differ on a program that satisfies the guard of c08_refines_direct",
+                          {"theorem": "c08_refines_direct", "input": {"k": p["k"], "ops": p["ops"]}}, found_input=False)
+            return st, []
+        elif a:
+            st["guard_false_agree"] += 1
+        else:
+            st["guard_false_differ"] += 1
+    # witnesses + fine scenarios
+    sc = [{"k": k, "servers": ns, "ops": ops} for (_, k, ns, ops, _) in WITNESSES] + [{"k": k, "servers": ns, "ops": ops} for (_, k, ns, ops) in FINE]
+    preds = predict(sc)
+    wire = []
+    for (name, k, ns, ops, why), pr in zip(WITNESSES, preds):
+        differs = [o for o in pr["client_obs"]] != [o for o in pr["direct_connection"]]
+        mo = [(o["kind"], o["client"], [r for r in o["replies"] if not isinstance(r, str) or r == "RErr"]) for o in pr["client_obs"]]
+        so = [(o["kind"], o["client"], [r for r in o["replies"] if not isinstance(r, str) or r == "RErr"]) for o in pr["direct_connection"]]
+        if mo == so or pr["guard"]:
+            run.broken.append("witness %s no longer separates the model from the direct-connection specification" % name)
+        wire.append({"name": name, "cache_size": k, "servers": ns, "ops": ops, "why": why, "model": pr, "needs_wire_confirmation": True})
+    for (name, k, ns, ops), pr in zip(FINE, preds[len(WITNESSES):]):
+        mo = [(o["kind"], o["client"], [r for r in o["replies"] if not isinstance(r, str) or r == "RErr"]) for o in pr["client_obs"]]
+        so = [(o["kind"], o["client"], [r for r in o["replies"] if not isinstance(r, str) or r == "RErr"]) for o in pr["direct_connection"]]
+        if mo != so:
+            run.broken.append("scenario %s (expected to behave like a direct connection) differs in the model" % name)
+        wire.append({"name": name, "cache_size": k, "servers": ns, "ops": ops, "why": "investigated: behaves like a direct connection", "model": pr, "needs_wire_confirmation": False})
+    return st, wire
+
+
+def wire_cases(seed=1, n=50):
+    """Entry point for the wire harness (to be plugged in): programs + model predictions, JSON-comparable."""
+    import random
+    rng = random.Random(seed)
+    progs = []
+    for i in range(n):
+        k = rng.choice([1, 2, 8])
+        ns = rng.choice([1, 2, 3])
+        progs.append({"k": k, "servers": ns, "ops": gen_program(rng, rng.choice([2, 3]), ns, k, 10, i % 4 == 3)})
+    progs += [{"k": k, "servers": ns, "ops": ops, "name": name} for (name, k, ns, ops, _) in WITNESSES]
+    progs += [{"k": k, "servers": ns, "ops": ops, "name": name} for (name, k, ns, ops) in FINE]
+    for p, pr in zip(progs, predict(progs, "c08w")):
+        p["prediction"] = pr
+        p["sql"] = {str(st): stmt_sql(st) for st in sorted({o["st"] for o in p["ops"] if o["op"] == "Parse"})}
+    return progs
+
+
 # ------------------------------------------------------------------------------------------------ check
 def check(run):
     quick = run.tier == "quick"
@@ -510,6 +769,21 @@ def check(run):
             run.log("layer 1 (release build, no overflow checks): %d evaluations" % t2.evals)
         else:
             run.broken.append("release build of the harness failed: " + blog2[-300:])
+
+    # layer 2: model-level checks and the predictions prepared for the wire harness
+    l2, wire = ({}, [])
+    if not run.violations:
+        okc, logc = vlib.coq_make(["Prep/CacheObs.vo"])
+        if okc:
+            l2, wire = layer2(run, quick)
+            evals += l2.get("programs", 0) + len(wire)
+            run.log("layer 2 (model vs direct-connection spec): %s" % l2)
+        else:
+            run.broken.append("coq/Prep/CacheObs.v does not compile: " + logc[-300:])
+    run.cov["layer2_model_level"] = l2
+    run.cov["layer2_wire_scenarios"] = [{"name": w["name"], "cache_size": w["cache_size"], "servers": w["servers"], "ops": prog_coq(w["ops"]),
+                                         "needs_wire_confirmation": w["needs_wire_confirmation"], "why": w["why"],
+                                         "model_client_obs": w["model"]["client_obs"], "direct_connection": w["model"]["direct_connection"]} for w in wire]
 
     for k, v in sorted(tie.findings.items()):
         if k.startswith("bind-rename-nonutf8"):
